@@ -501,6 +501,10 @@ func c08(r *core.Report) {
 		}
 	}
 
+	// ---- C08-LIB-CONTRACT: dependency calls that panic on a destination too short for the input
+	r.Rule("C08-LIB-CONTRACT", "base64 Decode is reached only with text of exactly the destination's encoded length (it indexes past a shorter destination)", 1)
+	ruleBase64DecodeFits(r, "C08-LIB-CONTRACT", "text longer than the destination's encoded length reaches base64's Decode, which indexes past the destination: an over-long identity in an address string panics the node")
+
 	r.Rule("C08-NIL", "results of module functions that can return nil are not dereferenced unchecked on packet paths", 1)
 	nn := core.NewNonNil(p)
 	nilRet := map[*ssa.Function]map[int]bool{}
